@@ -570,6 +570,7 @@ pub fn run_case(ctx: &Ctx, prof: &Profile, case: u64, verbose: bool) -> CaseOut 
         out.counters.insert("cases_with_a_request_buffered_behind_every_command".into(), 1);
     }
     let mut probe_uncollected = false;
+    let burst_at = if rng.gen_ratio(1, 20) { rng.gen_range(0..len) } else { usize::MAX };
     for step in 0..len {
         let mut cmd = gen_cmd(&mut rng, prof, &m, &keys, limit);
         if probe_uncollected {
@@ -595,6 +596,16 @@ pub fn run_case(ctx: &Ctx, prof: &Profile, case: u64, verbose: bool) -> CaseOut 
                 };
                 *out.counters.entry("probes_of_an_expired_uncollected_item".into()).or_insert(0) += 1;
             }
+        }
+        // a burst of unrelated stores in the middle of some cases: whatever a store does every so-many writes
+        // (housekeeping, sweeps, counters wrapping) must leave the keys under test alone
+        if !cfg!(miri) && step == burst_at {
+            let mut buf = vec![];
+            for i in 0..1200u32 {
+                wire::store(op::SETQ, format!("burst-{}", i % 40).as_bytes(), b"b", 0, if i % 3 == 0 { 1 } else { 0 }, i, 0).encode_into(&mut buf);
+            }
+            let _ = conn.feed(&buf);
+            *out.counters.entry("cases_with_a_burst_of_1200_unrelated_stores".into()).or_insert(0) += 1;
         }
         if let Cmd::Advance(d) = cmd {
             let t = stack.timer.advance(d);
